@@ -5,7 +5,7 @@ HOOKS = {
     "guard": "memvid_verif",
     "enable": "the harness crates pass --cfg memvid_verif through harness/.cargo/config.toml rustflags (with --check-cfg)",
     "baseline_off_cmd": "cd /repo && cargo nextest run --workspace --no-fail-fast --test-threads 8 --offline || cargo test --workspace --no-fail-fast --offline",
-    "source_commits": [],
+    "source_commits": ["17f5af1"],
     "add_only": True,
 }
 def _core(prop_text, note_extra=""):
